@@ -105,11 +105,7 @@ def maxc_of(case):
 
 def oracle(case, out):
     if "second" in out:
-        r = out["second"]
-        if r["outB"] != r["fresh"]:
-            return (f"a second subscriber (at {case['second']['sub2']}, first one disposed at {case['second']['dispose1']}) of the same "
-                    f"observable got {r['outB']}, a subscriber of a fresh instance gets {r['fresh']}: not exactly the elements of the inners IT received")
-        return None
+        return cc.second_failure(case, out["second"], "not exactly the elements of the inners IT received")
     log = out["log"]
     got = cc.outputs(out["split"])
     if not cc.grammar_ok(got):
